@@ -586,7 +586,10 @@ VmTrap vm_core_execute(VmState *vm) {
             if (b.tag == TAG_ENUM) { b = val_int((int64_t)b.as.enum_val); }
             if (a.tag == TAG_INT && b.tag == TAG_INT) {
                 /* Division by zero = 0 (matches Coq semantics) */
-                stack_push(vm, val_int(b.as.i64 == 0 ? 0 : a.as.i64 / b.as.i64));
+                /* INT64_MIN / -1 overflows (SIGFPE on x86): wraps to INT64_MIN */
+                stack_push(vm, val_int(b.as.i64 == 0 ? 0 :
+                                       b.as.i64 == -1 ? (int64_t)(0 - (uint64_t)a.as.i64) :
+                                       a.as.i64 / b.as.i64));
             } else if (a.tag == TAG_FLOAT && b.tag == TAG_FLOAT) {
                 stack_push(vm, val_float(b.as.f64 == 0.0 ? 0.0 : a.as.f64 / b.as.f64));
             } else if (a.tag == TAG_FLOAT && b.tag == TAG_INT) {
@@ -660,7 +663,8 @@ VmTrap vm_core_execute(VmState *vm) {
             if (a.tag == TAG_ENUM) { a = val_int((int64_t)a.as.enum_val); }
             if (b.tag == TAG_ENUM) { b = val_int((int64_t)b.as.enum_val); }
             if (a.tag == TAG_INT && b.tag == TAG_INT) {
-                stack_push(vm, val_int(b.as.i64 == 0 ? 0 : a.as.i64 % b.as.i64));
+                /* INT64_MIN % -1 traps on x86 although the result is 0 */
+                stack_push(vm, val_int((b.as.i64 == 0 || b.as.i64 == -1) ? 0 : a.as.i64 % b.as.i64));
             } else {
                 return trap_error(vm, VM_ERR_TYPE_ERROR, "MOD: type error");
             }
